@@ -2,7 +2,8 @@
 mod verif_kani {
     //! C03: canonical socket addresses; C10: ValidUntil arithmetic.  All harnesses are loop-free over the full input domain.
     use super::*;
-    use std::net::{Ipv6Addr, SocketAddrV6};
+    // explicit imports: the harness must not depend on which names the real file happens to import
+    use std::net::{Ipv4Addr, Ipv6Addr, SocketAddr, SocketAddrV4, SocketAddrV6};
 
     pub fn any_sockaddr() -> SocketAddr {
         if kani::any() {
